@@ -493,6 +493,7 @@ fn first_byte_diff(a: &str, b: &str) -> String {
 pub struct C18 {
     corpus: Vec<corpus::CorpusItem>,
     loaded: bool,
+    known: Vec<regex::Regex>,
 }
 
 const HOSTILE_TEXTS: [&str; 22] = ["hello", "", " ", "]]", "]=]", "[[", "[=[", "[[ x", "x ]", "]", "a\nb", "a\rb", "a\r\nb", "--", "--[[", "]] print('injected') --[[", "\n", "é", "multi\nline\n]]\n]=]", "end", "[==[", "\t"];
@@ -512,34 +513,197 @@ fn json_str(s: &str) -> String {
     serde_json::to_string(s).unwrap()
 }
 
+/// edit script between the expected comments (with position tags) and the comments found
+fn comment_edits(want: &[(String, &'static str)], got: &[String]) -> Vec<Diff> {
+    let mut diffs = vec![];
+    let (mut i, mut j) = (0usize, 0usize);
+    while i < want.len() || j < got.len() {
+        if i < want.len() && j < got.len() && want[i].0 == got[j] {
+            i += 1;
+            j += 1;
+            continue;
+        }
+        // several consecutive comments written as one
+        if i + 1 < want.len() && j < got.len() && got[j].starts_with(want[i].0.as_str()) && got[j].len() > want[i].0.len() {
+            let mut acc = String::new();
+            let mut m = 0usize;
+            while i + m < want.len() && got[j].starts_with(&format!("{}{}", acc, want[i + m].0)) {
+                acc.push_str(&want[i + m].0);
+                m += 1;
+                if acc.len() == got[j].len() {
+                    break;
+                }
+            }
+            if m >= 2 && acc == got[j] {
+                diffs.push(Diff { class: "comments-merged".into(), detail: format!("{} consecutive comments were merged into {:?}", m, got[j]) });
+                i += m;
+                j += 1;
+                continue;
+            }
+        }
+        let mut ok = false;
+        for k in 1..=10usize {
+            if j < got.len() && i + k < want.len() && want[i + k].0 == got[j] || (j >= got.len() && i + k == want.len()) {
+                for d in &want[i..i + k] {
+                    diffs.push(Diff { class: format!("{}-comment-dropped", d.1), detail: format!("comment {:?} ({} position) is missing from the output", d.0, d.1) });
+                }
+                i += k;
+                ok = true;
+                break;
+            }
+            if i < want.len() && j + k < got.len() && got[j + k] == want[i].0 || (i >= want.len() && j + k == got.len()) {
+                for d in &got[j..j + k] {
+                    diffs.push(Diff { class: "comment-inserted".into(), detail: format!("unexpected comment {:?} in the output", d) });
+                }
+                j += k;
+                ok = true;
+                break;
+            }
+        }
+        if !ok {
+            diffs.push(Diff { class: "comments-diverge".into(), detail: format!("expected comment {:?}, found {:?}", want.get(i).map(|x| &x.0), got.get(j)) });
+            break;
+        }
+    }
+    diffs
+}
+
+/// does the text contain a `-` token whose next token is preceded by a comment (with only blanks before it)?
+fn minus_then_comment(text: &str) -> bool {
+    let Ok(lx) = lex(text, true) else { return false };
+    for w in lx.tokens.windows(2) {
+        if lx.text(&w[0]) == "-" {
+            for tr in &w[1].leading {
+                match tr.kind {
+                    TriviaKind::Whitespace => {
+                        if lx.trivia_text(tr).contains('\n') {
+                            break;
+                        }
+                    }
+                    TriviaKind::LineComment | TriviaKind::LongComment => return true,
+                    _ => break,
+                }
+            }
+        }
+    }
+    false
+}
+
+/// alignment of two code-token sequences (texts only)
+fn code_token_diffs(a: &[String], b: &[String]) -> Vec<Diff> {
+    let class_of = |t: &str| -> String {
+        let c = t.as_bytes()[0];
+        if crate::reflua::lexer::is_keyword(t) {
+            t.to_string()
+        } else if c.is_ascii_alphabetic() || c == b'_' {
+            "<name>".into()
+        } else if c.is_ascii_digit() || (c == b'.' && t.len() > 1 && t.as_bytes()[1].is_ascii_digit()) {
+            "<number>".into()
+        } else if c == b'"' || c == b'\'' || (c == b'[' && t.len() > 1) {
+            "<string>".into()
+        } else if c == b'`' || (c == b'}' && t.len() > 1) {
+            "<interp>".into()
+        } else {
+            t.to_string()
+        }
+    };
+    let mut diffs = vec![];
+    let (mut i, mut j) = (0usize, 0usize);
+    let mut prev = "<start>".to_string();
+    while i < a.len() && j < b.len() {
+        if a[i] == b[j] {
+            prev = class_of(&a[i]);
+            i += 1;
+            j += 1;
+            continue;
+        }
+        let mut ok = false;
+        for k in 1..=12usize {
+            if i + k < a.len() && a[i + k] == b[j] {
+                diffs.push(Diff { class: format!("token-dropped:{}@{}~{}", a[i..i + k].iter().map(|t| class_of(t)).collect::<Vec<_>>().join(" "), prev, class_of(&a[i + k])), detail: format!("code tokens {:?} after {} are missing from the output", &a[i..i + k], prev) });
+                i += k;
+                ok = true;
+                break;
+            }
+            if j + k < b.len() && b[j + k] == a[i] {
+                diffs.push(Diff { class: format!("token-inserted:{}@{}~{}", b[j..j + k].iter().map(|t| class_of(t)).collect::<Vec<_>>().join(" "), prev, class_of(&a[i])), detail: format!("the output has extra code tokens {:?} after {}", &b[j..j + k], prev) });
+                j += k;
+                ok = true;
+                break;
+            }
+        }
+        if !ok {
+            diffs.push(Diff { class: format!("tokens-diverge@{}~{}", prev, class_of(&a[i])), detail: format!("after {}: expected {:?}, output has {:?}", prev, a[i], b[j]) });
+            return diffs;
+        }
+    }
+    if i < a.len() {
+        diffs.push(Diff { class: format!("token-dropped:{}@{}~<eof>", a[i..].iter().take(6).map(|t| class_of(t)).collect::<Vec<_>>().join(" "), prev), detail: format!("code tokens {:?} at the end are missing from the output", &a[i..a.len().min(i + 8)]) });
+    } else if j < b.len() {
+        diffs.push(Diff { class: format!("token-inserted:{}@{}~<eof>", b[j..].iter().take(6).map(|t| class_of(t)).collect::<Vec<_>>().join(" "), prev), detail: format!("the output has extra code tokens {:?} at the end", &b[j..b.len().min(j + 8)]) });
+    }
+    diffs
+}
+
 struct Lexd {
     code: Vec<String>,
     code_lines: Vec<u32>,
     comments: Vec<String>,
+    /// position class of each comment: "plain", "type" (inside / directly after a type annotation), "interp-hole" (before the `}` of a hole)
+    tags: Vec<&'static str>,
+    line_comment_in_type: bool,
 }
 
 fn lexd(s: &str) -> Option<Lexd> {
     let lx = lex(s, true).ok()?;
+    // parentheses inside type annotations may legitimately come and go (C03 allows it): ignore them
+    let spans = match parse(s, Mode::Luau) {
+        Ok(p) => merge_spans(&p.type_spans),
+        Err(_) => vec![],
+    };
     let mut code = vec![];
     let mut code_lines = vec![];
     let mut comments = vec![];
+    let mut tags: Vec<&'static str> = vec![];
+    let mut prev_in_type = false;
+    let mut line_comment_in_type = false;
     for t in &lx.tokens {
+        let in_type = t.kind != Tk::Eof && spans.iter().any(|(a, b)| t.start >= *a && t.end <= *b);
+        let interp_close = matches!(t.kind, Tk::InterpMid | Tk::InterpEnd);
         for tr in &t.leading {
             if matches!(tr.kind, TriviaKind::LineComment | TriviaKind::LongComment) {
                 comments.push(lx.trivia_text(tr).to_string());
+                if in_type || prev_in_type {
+                    tags.push("type");
+                    if tr.kind == TriviaKind::LineComment {
+                        line_comment_in_type = true;
+                    }
+                } else if interp_close {
+                    tags.push("interp-hole");
+                } else {
+                    tags.push("plain");
+                }
             }
         }
+        prev_in_type = in_type;
         if t.kind != Tk::Eof {
-            code.push(lx.text(t).to_string());
+            let txt = lx.text(t);
+            if (txt == "(" || txt == ")") && in_type {
+                continue;
+            }
+            code.push(txt.to_string());
             code_lines.push(t.line);
         }
     }
-    Some(Lexd { code, code_lines, comments })
+    Some(Lexd { code, code_lines, comments, tags, line_comment_in_type })
 }
 
 impl Monitor for C18 {
     fn id(&self) -> &'static str {
         "C18"
+    }
+    fn set_known(&mut self, signatures: &[String]) {
+        self.known = signatures.iter().filter_map(|s| regex::Regex::new(s).ok()).collect();
     }
     fn rule_text(&self) -> String {
         "deterministic: hostile comment texts x location {start,end} x file shapes (empty, only comment, ending in a line comment, no trailing newline) for append_text_comment; every corpus file x {remove_spaces, remove_comments with 8 except-sets}; random: generated programs in fuzzed layouts x the three rules (alone and after remove_spaces) x the three generators. Oracle (independent lexer): code-token sequence unchanged; surviving comments == input comments matching an except regex (retain_lines generator); appended text appears inside exactly one new comment, no code token appears/disappears, and with location 'end' no code token changes line. Non-trivial = the input has at least one comment (or the rule is append_text_comment); distinct = hash(input, rule).".into()
@@ -634,7 +798,6 @@ impl Monitor for C18 {
         if dl::parse_tokens(src).is_err() {
             return Verdict::discard("darklua's parser rejects the input");
         }
-        let Some(a) = lexd(src) else { return Verdict::discard("reference lexer rejects the input") };
         let config = dl::config_json(&rules, generator);
         let out = match dl::process_one(src, &config) {
             Ok(o) => o,
@@ -645,40 +808,50 @@ impl Monitor for C18 {
                 return Verdict::violated("process-error", format!("error for a parsable input: {}", e.lines().next().unwrap_or("")));
             }
         };
+        // baseline: the same pipeline without the rule under test (the last rule), so that only that rule is judged
+        let base_text = if rules.len() > 1 {
+            match dl::process_one(src, &dl::config_json(&rules[..rules.len() - 1], generator)) {
+                Ok(o) => o,
+                Err(_) => return Verdict::discard("baseline pipeline failed"),
+            }
+        } else if generator.contains("retain_lines") {
+            src.to_string()
+        } else {
+            // what the generator alone does to the file
+            match dl::process_one(src, &dl::config_json(&[], generator)) {
+                Ok(o) => o,
+                Err(_) => return Verdict::discard("baseline pipeline failed"),
+            }
+        };
+        let Some(a) = lexd(&base_text) else { return Verdict::discard("reference lexer rejects the baseline text") };
+        if rules.len() > 1 {
+            // an earlier rule of the pipeline already damaged the file: that is reported by that rule's own cases
+            match lexd(src) {
+                Some(s0) if s0.code == a.code && s0.comments == a.comments => {}
+                _ => return Verdict::discard("the baseline pipeline already changed the code tokens or comments"),
+            }
+        }
         let Some(b) = lexd(&out) else {
             return Verdict::violated(format!("{}:output-unlexable", kind), format!("the reference lexer rejects the output\n--- input\n{:?}\n--- output\n{:?}", src, out));
         };
         let retain = generator.contains("retain_lines");
-        // 1. code tokens (dense/readable may respell literals and drop parentheses-free sugar: compare only with retain_lines;
-        //    for the other generators compare the re-parsed trees)
-        if retain {
-            if a.code != b.code {
-                let i = a.code.iter().zip(b.code.iter()).position(|(x, y)| x != y).unwrap_or(a.code.len().min(b.code.len()));
-                return Verdict::violated(
-                    format!("{}:code-tokens-changed", kind),
-                    format!("code token {} differs: {:?} vs {:?} ({} vs {} tokens)\n--- input\n{:?}\n--- output\n{:?}", i, a.code.get(i), b.code.get(i), a.code.len(), b.code.len(), src, out),
-                );
-            }
-        } else {
-            use crate::reflua::parser::parse_block;
-            match (parse_block(src, Mode::Luau), parse_block(&out, Mode::Luau)) {
-                (Ok(x), Ok(y)) => {
-                    if super::c02::norm_block(&x) != super::c02::norm_block(&y) {
-                        return Verdict::violated(format!("{}:tree-changed", kind), format!("the re-parsed tree differs\n--- input\n{:?}\n--- output\n{:?}", src, out));
-                    }
-                }
-                (Ok(_), Err(e)) => return Verdict::violated(format!("{}:output-unparsable", kind), format!("{}\n--- input\n{:?}\n--- output\n{:?}", e, src, out)),
-                _ => return Verdict::discard("reference parser rejects the input"),
-            }
+        let mut diffs: Vec<Diff> = vec![];
+        // 1. code tokens: identical sequence (for every generator: the baseline went through the same generator)
+        diffs.extend(code_token_diffs(&a.code, &b.code));
+        if !diffs.is_empty() && a.line_comment_in_type && diffs[0].class.starts_with("token-dropped:") {
+            let d = diffs.remove(0);
+            diffs = vec![Diff { class: "line-comment-in-type-swallows-code".into(), detail: format!("a line comment inside a type annotation: the line break after it moved past the next token ({})", d.detail) }];
         }
-        // 2. comments
-        if retain {
+        if !diffs.is_empty() && minus_then_comment(&base_text) && rules.last().map(|r| r.contains("remove_spaces")).unwrap_or(false) {
+            // `- --comment`: after the fusion the damage is arbitrary, name the trigger instead
+            let d = diffs.remove(0);
+            diffs = vec![Diff { class: "minus-then-comment-fused".into(), detail: format!("a `-` directly followed by a comment lost its separating space ({})", d.detail) }];
+        }
+        // 2. comments (retain_lines keeps them; dense/readable drop them all by design)
+        if retain && diffs.is_empty() {
+            let tagged: Vec<(String, &'static str)> = a.comments.iter().cloned().zip(a.tags.iter().cloned()).collect();
             match kind {
-                "spaces" => {
-                    if a.comments != b.comments {
-                        return Verdict::violated("spaces:comments-changed", format!("remove_spaces changed the comments: {:?} -> {:?}\n--- input\n{:?}\n--- output\n{:?}", a.comments, b.comments, src, out));
-                    }
-                }
+                "spaces" => diffs.extend(comment_edits(&tagged, &b.comments)),
                 "comments" => {
                     let ex: Vec<String> = case["except"].as_array().map(|a| a.iter().filter_map(|x| x.as_str().map(|s| s.to_string())).collect()).unwrap_or_default();
                     let mut regs = vec![];
@@ -688,42 +861,59 @@ impl Monitor for C18 {
                             Err(_) => return Verdict::discard("invalid regex in the harness' except set"),
                         }
                     }
-                    let want: Vec<String> = a.comments.iter().filter(|c| regs.iter().any(|r| r.is_match(c))).cloned().collect();
-                    if want != b.comments {
-                        return Verdict::violated("comments:wrong-survivors", format!("except {:?}: expected surviving comments {:?}, found {:?}\n--- input\n{:?}\n--- output\n{:?}", ex, want, b.comments, src, out));
+                    let want: Vec<(String, &'static str)> = tagged.into_iter().filter(|c| regs.iter().any(|r| r.is_match(&c.0))).collect();
+                    for mut d in comment_edits(&want, &b.comments) {
+                        if d.class == "comment-inserted" {
+                            d.class = "comment-not-matching-except-survived".into();
+                        }
+                        d.detail = format!("except {:?}: {}", ex, d.detail);
+                        diffs.push(d);
                     }
                 }
                 "append" => {
                     let text = case["text"].as_str().unwrap_or("");
                     let loc = case["location"].as_str().unwrap_or("start");
-                    if text.is_empty() {
-                        if a.comments != b.comments {
-                            return Verdict::violated("append:empty-text-changed-comments", format!("{:?} -> {:?}", a.comments, b.comments));
-                        }
-                    } else {
-                        // the text must be inside comments, and every original comment must survive, in order.
-                        // (a file ending in a line comment without newline may legitimately get the text merged into it)
-                        let norm = |s: &str| s.replace("\r\n", "\n");
-                        let joined = norm(&b.comments.join("\n"));
-                        if !joined.contains(&norm(text)) {
-                            return Verdict::violated("append:text-not-in-comment", format!("text {:?} at {}: comments of the output are {:?}\n--- input\n{:?}\n--- output\n{:?}", text, loc, b.comments, src, out));
-                        }
-                        let mut pos = 0usize;
-                        for c in &a.comments {
-                            match joined[pos..].find(&norm(c)) {
-                                Some(i) => pos += i + norm(c).len(),
-                                None => return Verdict::violated("append:original-comment-lost", format!("text {:?} at {}: original comment {:?} is missing from {:?}\n--- input\n{:?}\n--- output\n{:?}", text, loc, c, b.comments, src, out)),
+                    let norm = |s: &str| s.replace("\r\n", "\n");
+                    let mut got = b.comments.clone();
+                    let mut edits: Vec<Diff> = vec![];
+                    if !text.is_empty() {
+                        // exactly one comment holding the text is expected, at the requested end of the file; a file ending
+                        // (starting) with a line comment may legitimately get the text merged with that comment
+                        let holds = |c: &str| norm(c).contains(&norm(text));
+                        let idx = if loc == "start" { got.iter().position(|c| holds(c)) } else { got.iter().rposition(|c| holds(c)) };
+                        match idx {
+                            None => edits.push(Diff { class: "text-not-in-comment".into(), detail: format!("text {:?} at {}: no comment of the output contains it: {:?}", text, loc, b.comments.iter().take(6).collect::<Vec<_>>()) }),
+                            Some(ix) => {
+                                let c = got.remove(ix);
+                                let neighbour = if loc == "start" { a.comments.first() } else { a.comments.last() };
+                                let mut merged = false;
+                                if let Some(o) = neighbour {
+                                    let have = got.iter().filter(|x| *x == o).count();
+                                    let need = a.comments.iter().filter(|x| *x == o).count();
+                                    if c.contains(o.as_str()) && c != *o && have < need {
+                                        got.insert(ix.min(got.len()), o.clone());
+                                        merged = true;
+                                    }
+                                }
+                                cov.hit(if merged { "append:merged-into-existing-comment" } else { "append:separate-comment" });
                             }
                         }
-                        let strict = if loc == "start" { b.comments.len() == a.comments.len() + 1 && b.comments[1..] == a.comments[..] } else { b.comments.len() == a.comments.len() + 1 && b.comments[..a.comments.len()] == a.comments[..] };
-                        cov.hit(if strict { "append:separate-comment" } else { "append:merged-into-existing-comment" });
                     }
-                    if loc == "end" && a.code_lines != b.code_lines {
-                        return Verdict::violated("append:end-moves-lines", format!("text {:?} at end: code token lines changed from {:?} to {:?}\n--- input\n{:?}\n--- output\n{:?}", text, a.code_lines, b.code_lines, src, out));
+                    edits.extend(comment_edits(&tagged, &got));
+                    diffs.extend(edits);
+                    if loc == "end" && a.code_lines != b.code_lines && a.code == b.code {
+                        let shift: Vec<i64> = a.code_lines.iter().zip(b.code_lines.iter()).map(|(x, y)| *y as i64 - *x as i64).collect();
+                        let uniform = shift.windows(2).all(|w| w[0] == w[1]);
+                        diffs.push(Diff { class: if uniform { "end-shifts-all-lines".into() } else { "end-moves-lines".into() }, detail: format!("text {:?} at end: code token lines changed from {:?} to {:?}", text, &a.code_lines[..a.code_lines.len().min(12)], &b.code_lines[..b.code_lines.len().min(12)]) });
                     }
                 }
                 _ => {}
             }
+        }
+        if !diffs.is_empty() {
+            let pick = diffs.iter().find(|d| !self.known.iter().any(|k| k.is_match(&format!("{}:{}", kind, d.class)))).unwrap_or(&diffs[0]);
+            let all: Vec<String> = diffs.iter().take(6).map(|d| format!("[{}] {}", d.class, d.detail)).collect();
+            return Verdict::violated(format!("{}:{}", kind, pick.class), format!("{}\nall differences: {}\n--- rules {:?} generator {}\n--- input\n{:?}\n--- baseline (pipeline without the last rule)\n{:?}\n--- output\n{:?}", pick.detail, all.join(" | "), rules, generator, src, base_text, out));
         }
         cov.hit(&format!("kind:{}", kind));
         cov.hit(&format!("generator:{}", generator.trim_matches('\'')));
@@ -773,7 +963,10 @@ impl Monitor for C18 {
             } else {
                 "single-line-text"
             };
-            return format!("{}|{}|{}", signature, case["location"].as_str().unwrap_or(""), class);
+            // with a hostile text the exact damage depends on the file: keep only its kind
+            let hostile = class == "text-with-cr" || class == "text-starting-with-long-bracket";
+            let sig = if hostile && (signature.starts_with("append:token-") || signature.starts_with("append:tokens-")) { "append:code-tokens-changed" } else { signature };
+            return format!("{}|{}|{}", sig, case["location"].as_str().unwrap_or(""), class);
         }
         signature.to_string()
     }
